@@ -1,4 +1,4 @@
-package facts
+package c12
 
 import (
 	"bytes"
@@ -7,6 +7,8 @@ import (
 	"strings"
 
 	"github.com/libp2p/go-libp2p/core/crypto"
+
+	"verifharness/hx"
 
 	"github.com/evstack/ev-node/block"
 	"github.com/evstack/ev-node/types"
@@ -32,11 +34,11 @@ func GoldenValues() (h types.Header, d types.Data, sh types.SignedHeader, sd typ
 }
 
 func init() {
-	Register("C12", func() (string, error) {
+	hx.RegisterFacts("C12", func() (string, error) {
 		var b strings.Builder
 		h, d, sh, sd := GoldenValues()
 		pk, _ := crypto.MarshalPublicKey(sh.Signer.PubKey)
-		def := func(name string, v []byte) { fmt.Fprintf(&b, "def %s : Bytes := %s\n", name, LeanBytes(v)) }
+		def := func(name string, v []byte) { fmt.Fprintf(&b, "def %s : Bytes := %s\n", name, hx.LeanBytes(v)) }
 		must := func(v []byte, err error) []byte {
 			if err != nil {
 				return nil
